@@ -3,12 +3,15 @@
 import os, sys, json, shutil, re
 VERIF = os.path.dirname(os.path.dirname(os.path.abspath(__file__)))
 agent, prop = sys.argv[1], sys.argv[2]
+# prop may be one id for all patches, or a mapping like "1:C05,2:C05,3:C20,4:C20"
+PROPMAP = dict(x.split(":") for x in prop.split(",")) if ":" in prop else None
 src = os.path.join("/tmp/seeded_out", agent)
 for f in sorted(os.listdir(src)):
     m = re.match(r"patch(\d+)\.diff$", f)
     if not m:
         continue
     i = m.group(1)
+    prop = PROPMAP[i] if PROPMAP else sys.argv[2]
     sid = "%s_%s_%s" % (prop, agent, i)
     d = os.path.join(VERIF, "seeded", sid)
     os.makedirs(d, exist_ok=True)
